@@ -10,13 +10,17 @@ A spec is a nested list:  ["var", name] | ["const", value, width] | ["true"] | [
   BV  other  : ["extract", hi, lo, x] ["concat", x, y] ["zext", n, x] ["sext", n, x] ["ite", c, x, y]
   Bool cmp   : eq ne ult ule ugt uge slt sle sgt sge      (BV x BV -> Bool)
   Bool       : ["band", p, q, ...] ["bor", p, q, ...] ["bnot", p] ["bite", c, p, q] ["beq", p, q]
-Variables: dict name -> width (0 = Bool).
+  String     : ["sconst", text] ["sconcat", s, t] ["sreplace", s, pat, rep] ["substr", i, n, s]  (i, n: Python ints)
+  Bool (str) : ["seq", s, t] ["sne", s, t] ["scontains", s, t] ["sprefix", p, s] ["ssuffix", p, s]
+Variables: dict name -> width (0 = Bool, -1 = String).
 """
 from __future__ import annotations
 
 BV_BIN = ("add", "sub", "mul", "udiv", "urem", "sdiv", "srem", "and", "or", "xor", "shl", "lshr", "ashr")
 BV_UN = ("not", "neg")
 CMP = ("eq", "ne", "ult", "ule", "ugt", "uge", "slt", "sle", "sgt", "sge")
+STR_OPS = ("sconst", "sconcat", "sreplace", "substr")
+STR_PRED = ("seq", "sne", "scontains", "sprefix", "ssuffix")
 
 
 class SpecError(Exception):
@@ -32,8 +36,10 @@ def width_of(spec, variables) -> int:
         return variables[spec[1]]
     if op == "const":
         return spec[2]
-    if op in ("true", "false", "band", "bor", "bnot", "bite", "beq") or op in CMP:
+    if op in ("true", "false", "band", "bor", "bnot", "bite", "beq") or op in CMP or op in STR_PRED:
         return 0
+    if op in STR_OPS:
+        return -1
     if op in BV_BIN or op in BV_UN:
         return width_of(spec[1], variables)
     if op == "extract":
@@ -112,7 +118,15 @@ def _ashr(a, b, w):
     return (sa >> b) & ((1 << w) - 1)
 
 
-_ENV = {"_sg": _sg, "_udiv": _udiv, "_urem": _urem, "_sdiv": _sdiv, "_srem": _srem, "_shl": _shl, "_lshr": _lshr,
+def _srepl(a, p, r):
+    return r + a if p == "" else a.replace(p, r, 1)
+
+
+def _substr(a, i, n):
+    return a[i:i + n] if 0 <= i < len(a) and n > 0 else ""
+
+
+_ENV = {"_srepl": _srepl, "_substr": _substr, "_sg": _sg, "_udiv": _udiv, "_urem": _urem, "_sdiv": _sdiv, "_srem": _srem, "_shl": _shl, "_lshr": _lshr,
         "_ashr": _ashr}
 
 
@@ -123,8 +137,37 @@ def _src(spec, variables):
         if n not in variables:
             raise SpecError(f"unknown var {n}")
         return (f"(v_{n} != 0)" if variables[n] == 0 else f"v_{n}"), variables[n]
+    if op == "ite" and _src(spec[2], variables)[1] == -1:
+        c, wc = _src(spec[1], variables)
+        a, w = _src(spec[2], variables)
+        b, w2 = _src(spec[3], variables)
+        if wc != 0 or w2 != -1:
+            raise SpecError("bad string ite")
+        return f"({a} if {c} else {b})", -1
     if op == "const":
         return str(spec[1] & ((1 << spec[2]) - 1)), spec[2]
+    if op == "sconst":
+        return repr(str(spec[1])), -1
+    if op in ("sconcat", "sreplace", "substr") or op in STR_PRED:
+        subs = [_src(x, variables) for x in spec[1:] if isinstance(x, list)]
+        if any(w != -1 for _, w in subs):
+            raise SpecError(f"string op {op} on a non-string")
+        a = [c for c, _ in subs]
+        if op == "sconcat":
+            return f"({a[0]} + {a[1]})", -1
+        if op == "sreplace":
+            return f"_srepl({a[0]}, {a[1]}, {a[2]})", -1
+        if op == "substr":
+            return f"_substr({a[0]}, {int(spec[1])}, {int(spec[2])})", -1
+        if op == "seq":
+            return f"({a[0]} == {a[1]})", 0
+        if op == "sne":
+            return f"({a[0]} != {a[1]})", 0
+        if op == "scontains":
+            return f"({a[1]} in {a[0]})", 0
+        if op == "sprefix":
+            return f"({a[1]}.startswith({a[0]}))", 0
+        return f"({a[1]}.endswith({a[0]}))", 0
     if op == "true":
         return "True", 0
     if op == "false":
@@ -250,7 +293,28 @@ def build_claripy(spec, variables, claripy):
         w = variables[spec[1]]
         if w == 0:
             return claripy.BoolS(spec[1], explicit_name=True)
+        if w == -1:
+            return claripy.StringS(spec[1], explicit_name=True)
         return claripy.BVS(spec[1], w, explicit_name=True)
+    if op == "sconst":
+        return claripy.StringV(str(spec[1]))
+    if op == "sconcat":
+        return claripy.StrConcat(build_claripy(spec[1], variables, claripy), build_claripy(spec[2], variables, claripy))
+    if op == "sreplace":
+        return claripy.StrReplace(*[build_claripy(x, variables, claripy) for x in spec[1:]])
+    if op == "substr":
+        return claripy.StrSubstr(claripy.BVV(spec[1], 64), claripy.BVV(spec[2], 64), build_claripy(spec[3], variables, claripy))
+    if op in STR_PRED:
+        a_, b_ = build_claripy(spec[1], variables, claripy), build_claripy(spec[2], variables, claripy)
+        if op == "seq":
+            return a_ == b_
+        if op == "sne":
+            return a_ != b_
+        if op == "scontains":
+            return claripy.StrContains(a_, b_)
+        if op == "sprefix":
+            return claripy.StrPrefixOf(a_, b_)
+        return claripy.StrSuffixOf(a_, b_)
     if op == "const":
         return claripy.BVV(spec[1] & ((1 << spec[2]) - 1), spec[2])
     if op == "true":
@@ -340,7 +404,21 @@ def build_z3ref(spec, variables, ctx=None):
     op = spec[0]
     if op == "var":
         w = variables[spec[1]]
+        if w == -1:
+            return z3.String(spec[1], ctx)
         return z3.Bool(spec[1], ctx) if w == 0 else z3.BitVec(spec[1], w, ctx)
+    if op == "sconst":
+        return z3.StringVal(str(spec[1]), ctx)
+    if op == "sconcat":
+        return z3.Concat(build_z3ref(spec[1], variables, ctx), build_z3ref(spec[2], variables, ctx))
+    if op == "sreplace":
+        return z3.Replace(*[build_z3ref(x, variables, ctx) for x in spec[1:]])
+    if op == "substr":
+        return z3.SubString(build_z3ref(spec[3], variables, ctx), z3.IntVal(spec[1], ctx), z3.IntVal(spec[2], ctx))
+    if op in STR_PRED:
+        a_, b_ = build_z3ref(spec[1], variables, ctx), build_z3ref(spec[2], variables, ctx)
+        return {"seq": lambda: a_ == b_, "sne": lambda: a_ != b_, "scontains": lambda: z3.Contains(a_, b_),
+                "sprefix": lambda: z3.PrefixOf(a_, b_), "ssuffix": lambda: z3.SuffixOf(a_, b_)}[op]()
     if op == "const":
         return z3.BitVecVal(spec[1] & ((1 << spec[2]) - 1), spec[2], ctx)
     if op == "true":
